@@ -182,7 +182,14 @@ def r5_hash_of_the_configured_password(ctx):
         o = ctx.origins(body)
         hp = calls_norm(body, "auth::hash_password")
         if not hp:
-            ctx.ob("R06.5", "%s:hashes-the-password" % path.split("::")[-1], False, "", "%s does not call hash_password" % path)
+            # a constructor may leave the hashing to a sibling constructor it delegates to, handing the password on as given
+            from .common import param as _param
+            dele = [c for c in body.calls() if (c.norm or "").endswith(("Server::new", "Server::new_with_reloadable_tls", "Client::with_pool_config", "Client::new")) and c.args
+                    and not (c.norm or "").endswith("::" + path.split("::")[-1]) and var_name(o.of_operand(c.args[0])) == "password"]
+            ctx.ob("R06.5", "%s:hashes-the-password" % path.split("::")[-1], bool(dele), dele[0].site if dele else "",
+                   "delegates to %s with the password as given" % dele[0].norm.split("::")[-1] if dele else "%s does not call hash_password" % path)
+            if dele:
+                n += 1
             continue
         n += 1
         a = o.of_operand(hp[0].args[0])
